@@ -12,10 +12,20 @@ if ! build_harness > "$BUILD/build.log" 2>&1; then
   echo "harness build failed for $REPO" >&2
   exit 2
 fi
+export VERIF_REPO_DIR="$REPO" VERIF_BUILD_DIR="$BUILD" VERIF_DIR
+BINARY="$BUILD/rdmcheck"
+if [ "$1" = "C10" ] || { [ "$1" = "replay" ] && grep -q '"property": *"C10"' "$2" 2>/dev/null; }; then
+  # C10 runs on the instrumented binary (yield point before every statement) and needs the -race binary
+  if ! build_sched > "$BUILD/build_sched.log" 2>&1; then
+    cat "$BUILD/build_sched.log" >&2
+    echo "instrumented build failed for $REPO" >&2
+    exit 2
+  fi
+  BINARY="$BUILD/rdmsched"
+fi
 flock -u 9
 if [ "$1" = "replay" ]; then
-  exec "$BUILD/rdmcheck" replay "$2"
+  exec "$BINARY" replay "$2"
 fi
 ID="$1"; TIER="${2:-quick}"
-export VERIF_REPO_DIR="$REPO" VERIF_BUILD_DIR="$BUILD" VERIF_DIR
-exec "$BUILD/rdmcheck" run "$ID" "$TIER" "$VERIF_DIR"
+exec "$BINARY" run "$ID" "$TIER" "$VERIF_DIR"
